@@ -65,7 +65,7 @@ func main() {
 		m.Safety = *mode == "safety"
 		var vcs []*VC
 		for _, fc := range eng.db.order {
-			if ok, _ := regexp.MatchString(os.Args[2], fc.Key); fc.Kind != "func" || fc.Trusted || !(ok || strings.Contains(fc.Key, os.Args[2])) {
+			if ok, _ := regexp.MatchString(os.Args[2], fc.Key); fc.Kind != "func" || (fc.Trusted && !(m.Safety && !fc.Reflective)) || !(ok || strings.Contains(fc.Key, os.Args[2])) {
 				continue
 			}
 			vc := eng.verifyFunction(fc, m)
@@ -95,7 +95,7 @@ func main() {
 				if !ok || *verbose {
 					fmt.Printf("   %-8s %-7s %5.1fs %s\n", o.Result, o.Solver, o.Seconds, o.Name)
 					if !ok && o.Note != "" {
-						fmt.Printf("            %s\n", o.Note)
+						fmt.Printf("            %s  [%s]\n", o.Note, strings.TrimPrefix(o.Pos.String(), "/repo/"))
 					}
 					if o.Result == "error" {
 						fmt.Println(truncate(o.Model, 300))
@@ -103,7 +103,7 @@ func main() {
 				}
 			}
 		}
-		fmt.Printf("done in %.1fs, %d not discharged\n", time.Since(t0).Seconds(), bad)
+		fmt.Printf("done in %.1fs, %d not discharged (%d slice fallbacks)\n", time.Since(t0).Seconds(), bad, sliceFallbacks)
 		if bad > 0 {
 			os.Exit(1)
 		}
